@@ -83,5 +83,7 @@ ALSO_SERVES = {
 }
 
 SHARDS.update({
-    "urwid/widget/listbox.py:ListBox.calculate_visible": (12, 14),
+    "urwid/widget/listbox.py:ListBox.calculate_visible": (16, 14),
+    "urwid/widget/listbox.py:ListBox.mouse_event": (4, 6),
+    "urwid/widget/listbox.py:ListBox.change_focus": (4, 6),
 })
